@@ -15,6 +15,7 @@ import Bng.Model.PppoeSessions
     count               => <n>
     next                => <n>
     dump                => <id>=m1,… | -
+    stress <seed> <g> <n> => anomalies <k> sess <id>=m1,… mac m1=<id>|-,…   (last op; schedule dependent, monitor only)
 -/
 namespace Bng.Drv.PppSessDrv
 open Bng Bng.Drv Bng.PppoeSessions
@@ -73,6 +74,15 @@ def parseDump (s : String) : Option (List (Nat × Nat)) :=
     | [id, m] => do let id ← id.toNat?; let m ← parseTagged 'm' m; pure (id, m)
     | _ => none
 
+/-- `m1=5,m2=-` -/
+def parseMacs (s : String) : Option (List (Nat × Option Nat)) :=
+  if s == "-" then some [] else
+  (s.splitOn ",").mapM fun item =>
+    match item.splitOn "=" with
+    | [m, "-"] => do let m ← parseTagged 'm' m; pure (m, none)
+    | [m, id] => do let m ← parseTagged 'm' m; let id ← id.toNat?; pure (m, some id)
+    | _ => none
+
 /-- what the implementation's answer means for the monitor (`op` resolved against the IMPLEMENTATION's ids) -/
 def event (st : St) (op : Op) (impl : String) : Ev :=
   match op, splitTokens impl with
@@ -99,6 +109,23 @@ def event (st : St) (op : Op) (impl : String) : Ev :=
 def step (st : St) (toks : List String) (impl : String) : St × LineResult :=
   match toks with
   | ["new"] => ({ started := true }, { modelObs := "ok" })
+  | ["stress", _, _, _] =>
+    -- concurrency run (-race build): schedule dependent, so the model's observation is the implementation's,
+    -- verbatim.  Every goroutine keeps at most one live session of its own MAC, so the MONITOR demands the full
+    -- bijection of the final tables: ids valid and distinct, every live session found by its MAC, every MAC entry
+    -- sound, no in-goroutine anomaly.  Clause none for everything.  Afterwards the model is gone.
+    match splitTokens impl with
+    | ["anomalies", a, "sess", l, "mac", ms] =>
+      match parseDump l, parseMacs ms with
+      | some l, some ms =>
+        let (mon, v1) := l.foldl (fun (acc : PppoeSessions.Mon × List KeySpec.Verdict) (e : Nat × Nat) =>
+            let (m', vs) := PppoeSessions.check acc.1 (.created e.2 e.1); (m', acc.2 ++ vs)) (({} : PppoeSessions.Mon), [])
+        let v2 := (PppoeSessions.check mon (.dump l)).2
+        let v3 := ms.foldl (fun acc (e : Nat × Option Nat) => acc ++ (PppoeSessions.check mon (.byMac e.1 e.2)).2) []
+        let v0 := if a == "0" then [] else [("id-unique", s!"{a} in-goroutine checks failed during the concurrent run")]
+        ({ started := false }, { modelObs := impl, viols := (v0 ++ v1 ++ v2 ++ v3).map fun (n, d) => (n, "none", d) })
+      | _, _ => ({ started := false }, { modelObs := "badobs" })
+    | _ => ({ started := false }, { modelObs := "badobs" })
   | _ =>
     if !st.started then (st, { modelObs := "badop" }) else
     match parseOp toks with
